@@ -117,6 +117,7 @@ func init() {
 		},
 		zzPath + ".NativeRepeat": func(e *Exec, fn *ssa.Function, a []Value) Value { return e.ts.Const(64, 1) },
 		zzPath + ".Go":           inZZGo,
+		zzPath + ".NativeWait":   func(e *Exec, fn *ssa.Function, a []Value) Value { return nil },
 		zzPath + ".WaitThreads":  inZZWaitThreads,
 		zzPath + ".Settle":       inZZSettle,
 		zzPath + ".Yield":        inZZYield,
@@ -136,7 +137,12 @@ func init() {
 			c := e.newCell(fn.Signature.Results().At(0).Type().(*types.Pointer).Elem())
 			e.cellID++
 			ch := &ChanObj{T: c.Fields[0].Typ.Underlying().(*types.Chan), Cap: 1, id: e.cellID}
-			ch.Buf = append(ch.Buf, mkTime(e, e.ts.Const(64, 0)))
+			if e.cfg.ThreadMode {
+				// fires once another thread has been scheduled (see ChanObj.TimerArmed)
+				ch.TimerArmed, ch.TimerAt = true, e.tstate().switches
+			} else {
+				ch.Buf = append(ch.Buf, mkTime(e, e.ts.Const(64, 0)))
+			}
 			c.Fields[0].V = ch
 			return c
 		},
